@@ -189,3 +189,230 @@ Qed.
 
 Lemma invL_step s w c s' : invL s -> step s w c = SOk s' -> invL s'.
 Proof. destruct w; cbn [step]; eauto using invL_thr, invL_enf. Qed.
+
+(* ------------------------------------------------------------------ invariant D *)
+
+Lemma is_idle_waiter s : is_idle s = true -> waiter (e_pc (s_enf s)) = None.
+Proof. unfold is_idle. destruct (e_pc (s_enf s)); try discriminate; reflexivity. Qed.
+
+Lemma has_done_with_epc t s p : has_done t (with_enf s (with_epc (s_enf s) p)) = has_done t s.
+Proof. reflexivity. Qed.
+Lemma has_done_setpc t u p s : has_done t (setpc u p s) = has_done t s. Proof. reflexivity. Qed.
+Lemma has_done_setx t mb x s : has_done t (setx mb x s) = has_done t s. Proof. reflexivity. Qed.
+Lemma has_done_addlog t e s : has_done t (addlog e s) = has_done t s. Proof. reflexivity. Qed.
+Lemma has_done_touch t mb s : has_done t (touch mb s) = has_done t s.
+Proof. unfold has_done. now rewrite enf_touch. Qed.
+#[export] Hint Rewrite has_done_with_epc has_done_setpc has_done_setx has_done_addlog has_done_touch : sys.
+
+Lemma invD_thr s t c s' : invD s -> step_thr s t c = SOk s' -> invD s'.
+Proof.
+  intros HD H. unfold step_thr in H.
+  destruct (nth_error (s_thr s) t) as [p|] eqn:Ep; [|discriminate].
+  pose proof (nth_error_lt _ _ _ Ep) as Hlt.
+  destruct p; try discriminate.
+  all: split_step H.
+  all: inv_ok H.
+  all: intros t0 p0 Hn Hw; autorewrite with sys in *.
+  all: apply nth_set_cases in Hn; destruct Hn as [(-> & -> & _)|(Hne & Hn)].
+  (* the moving thread itself *)
+  all: try discriminate.
+  all: try (destruct l; discriminate).
+  all: try (right; reflexivity).
+  all: try (unfold purge_next in Hw; match type of Hw with context [pick ?c ?l] => destruct (pick c l) as [[? ?]|] end; discriminate).
+  all: try (unfold next_add in Hw; match type of Hw with context [match ?l with _ => _ end] => destruct l end; discriminate).
+  (* another thread *)
+  all: try (destruct (HD _ _ Hn Hw) as [Hd|Hd]; [left|right]; autorewrite with sys; try assumption;
+            try (rewrite has_done_take by congruence; assumption)).
+  all: try (match goal with Hi : is_idle _ = true |- _ => apply is_idle_waiter in Hi; congruence end).
+Qed.
+
+Lemma after_evict_cases max w e :
+  (after_evict max w e = with_epc e (EEvict w)) \/ (after_evict max w e = finish_enf w e).
+Proof. unfold after_evict. destruct (max <? e_cur e)%Z; auto. Qed.
+
+Lemma has_done_finish_enf t w e s :
+  has_done t (with_enf s (finish_enf w e)) = (Nat.eqb t w || existsb (Nat.eqb t) (e_done e))%bool.
+Proof. reflexivity. Qed.
+
+Lemma invD_enf s s' : invD s -> step_enf s = SOk s' -> invD s'.
+Proof.
+  intros HD H. unfold step_enf in H.
+  destruct (s_max s) as [max|] eqn:Emax; [|discriminate].
+  destruct (e_pc (s_enf s)) eqn:Epc; try discriminate.
+  all: repeat match type of H with
+       | context [if locked ?mb ?ss then _ else _] => destruct (locked mb ss) eqn:Elk; [discriminate|]
+       | context [if ?b then _ else _] => destruct b eqn:?
+       | context [match e_all ?e with _ => _ end] => destruct (e_all e) eqn:?
+       | context [match box_remove ?a ?b with _ => _ end] => destruct (box_remove a b) as [? [?|]] eqn:?
+       end; try discriminate.
+  all: inv_ok H.
+  all: intros t0 p0 Hn Hw; autorewrite with sys in *.
+  all: destruct (HD _ _ Hn Hw) as [Hd|Hd]; try rewrite Epc in Hd; cbn [waiter] in Hd; try (inv_ok Hd).
+  all: try match goal with |- context [after_evict ?m ?w ?e] =>
+         destruct (after_evict_cases m w e) as [-> | ->] end.
+  all: unfold has_done in *; cbn [s_enf with_enf finish_enf with_epc e_done e_pc waiter existsb] in *.
+  all: rewrite ?Nat.eqb_refl; cbn [orb]; auto.
+  all: try (left; rewrite Hd; apply orb_true_r).
+Qed.
+
+Lemma invD_step s w c s' : invD s -> step s w c = SOk s' -> invD s'.
+Proof. destruct w; cbn [step]; eauto using invD_thr, invD_enf. Qed.
+
+(* ------------------------------------------------------------ deadlock freedom *)
+
+Definition can_move (s : msys) (w : who) : Prop :=
+  match step s w 0 with SOk _ | SCrash => True | _ => False end.
+
+Lemma holder_moves s mb t : invL s -> x_lock (getx mb s) = Some t -> can_move s (T t).
+Proof.
+  intros HL H. destruct (HL _ _ H) as [nm Hn]. unfold can_move; cbn [step]. unfold step_thr. rewrite Hn.
+  destruct (box_cap (s_cap s) (x_box (getx mb s))). exact I.
+Qed.
+
+Lemma locked_holder s mb : locked mb s = true -> exists t, x_lock (getx mb s) = Some t.
+Proof. unfold locked. destruct (x_lock (getx mb s)); [eauto | discriminate]. Qed.
+
+Lemma thr_done_all s : forallb thr_done (s_thr s) = false ->
+  exists t p, nth_error (s_thr s) t = Some p /\ thr_done p = false.
+Proof.
+  induction (s_thr s) as [|p l IH]; cbn; [discriminate|].
+  destruct (thr_done p) eqn:E; cbn.
+  - intros H. destruct (IH H) as (t & q & ? & ?). exists (S t), q; auto.
+  - intros _. exists 0%nat, p; auto.
+Qed.
+
+(** N: without a size limit the enforcer fields are never touched. *)
+Definition invN (s : msys) : Prop := s_max s = None -> is_idle s = true.
+
+Lemma invN_step s w c s' : invN s -> step s w c = SOk s' -> invN s'.
+Proof.
+  intros HN H. destruct w as [t|]; cbn [step] in H.
+  - unfold step_thr in H.
+    destruct (nth_error (s_thr s) t) as [p|] eqn:Ep; [|discriminate].
+    destruct p; try discriminate.
+    all: split_step H.
+    all: inv_ok H.
+    all: intros Hm; autorewrite with sys in Hm; try congruence.
+    all: unfold is_idle in *; autorewrite with sys; try (apply HN; assumption).
+    all: cbn [s_enf take_done e_pc]; apply HN; assumption.
+  - unfold step_enf in H. intros Hm. destruct (s_max s) eqn:E; [|discriminate].
+    assert (s_max s' = s_max s) as Hs.
+    { destruct (e_pc (s_enf s)); try discriminate;
+      repeat match type of H with
+       | context [if ?b then _ else _] => destruct b eqn:?
+       | context [match e_all ?e with _ => _ end] => destruct (e_all e) eqn:?
+       | context [match box_remove ?a ?b with _ => _ end] => destruct (box_remove a b) as [? [?|]] eqn:?
+       end; try discriminate; inv_ok H; autorewrite with sys; reflexivity. }
+    congruence.
+Qed.
+
+Ltac moves := unfold can_move; cbn [step]; unfold step_thr;
+  match goal with Hn : nth_error _ _ = Some _ |- _ => rewrite Hn end.
+
+Theorem deadlock_free_inv s : invL s -> invD s -> invN s ->
+  all_done s = true \/ exists w, can_move s w.
+Proof.
+  intros HL HD HN.
+  destruct (is_idle s) eqn:Eidle.
+  2:{ right. destruct (s_max s) as [max|] eqn:Emax; [|rewrite (HN Emax) in Eidle; discriminate].
+      unfold is_idle in Eidle.
+      destruct (e_pc (s_enf s)) eqn:Epc; try discriminate.
+      - exists E. unfold can_move; cbn [step]; unfold step_enf; rewrite Emax, Epc.
+        destruct (tag_mem _ _); exact I.
+      - exists E. unfold can_move; cbn [step]; unfold step_enf; rewrite Emax, Epc.
+        destruct (e_all (s_enf s)); exact I.
+      - destruct (locked (fst k) s) eqn:Elk.
+        + destruct (locked_holder _ _ Elk) as [t Ht]. exists (T t). eapply holder_moves; eauto.
+        + exists E. unfold can_move; cbn [step]; unfold step_enf; rewrite Emax, Epc, Elk.
+          destruct (box_remove _ _) as [? [?|]]; exact I.
+      - exists E. unfold can_move; cbn [step]; unfold step_enf; rewrite Emax, Epc.
+        destruct (tag_mem _ _); exact I. }
+  destruct (forallb thr_done (s_thr s)) eqn:Ed.
+  { left. unfold all_done. now rewrite Ed, Eidle. }
+  right. destruct (thr_done_all _ Ed) as (t & p & Hn & Hp).
+  assert (Hlk : forall mb, locked mb s = true -> exists w, can_move s w).
+  { intros mb Elk. destruct (locked_holder _ _ Elk) as [u Hu]. exists (T u). eapply holder_moves; eauto. }
+  assert (Hwait : waiting p = true -> s_max s <> None -> has_done t s = true).
+  { intros Hw _. destruct (HD _ _ Hn Hw) as [?|Hx]; [assumption|].
+    rewrite (is_idle_waiter _ Eidle) in Hx. discriminate. }
+  destruct p; try discriminate.
+  all: try (match goal with |- context [can_move] => idtac end;
+       match type of Hn with context [?P ?mb] => idtac end).
+  - exists (T t). moves. destruct o; try exact I. destruct (pick 0 _) as [[? ?]|]; exact I.
+  - destruct (locked mb s) eqn:Elk; [eauto|]. exists (T t). moves. rewrite Elk.
+    destruct (box_insert _ _ _). exact I.
+  - exists (T t). moves. destruct (box_cap _ _). exact I.
+  - exists (T t). moves. unfold enf_remove_step. destruct (s_max s) eqn:Em; [|exact I].
+    destruct sent.
+    + rewrite Hwait by (reflexivity || congruence). exact I.
+    + rewrite Eidle. exact I.
+  - exists (T t). moves. destruct (s_max s) eqn:Em; [|exact I].
+    destruct sent.
+    + rewrite Hwait by (reflexivity || congruence). exact I.
+    + rewrite Eidle. exact I.
+  - destruct (locked mb s) eqn:Elk; [eauto|]. exists (T t). moves. rewrite Elk. exact I.
+  - destruct (locked mb s) eqn:Elk; [eauto|]. exists (T t). moves. rewrite Elk. exact I.
+  - destruct (locked mb s) eqn:Elk; [eauto|]. exists (T t). moves. rewrite Elk. exact I.
+  - destruct (locked mb s) eqn:Elk; [eauto|]. exists (T t). moves. rewrite Elk.
+    destruct (box_seen _ _). exact I.
+  - destruct (locked mb s) eqn:Elk; [eauto|]. exists (T t). moves. rewrite Elk.
+    destruct (box_remove _ _) as [? [?|]]; exact I.
+  - exists (T t). moves. unfold enf_remove_step. destruct (s_max s) eqn:Em; [|exact I].
+    destruct sent.
+    + rewrite Hwait by (reflexivity || congruence). exact I.
+    + rewrite Eidle. exact I.
+  - destruct (locked mb s) eqn:Elk; [eauto|]. exists (T t). moves. rewrite Elk.
+    destruct (box_purge _). exact I.
+  - exists (T t). moves. destruct (s_max s); exact I.
+  - exists (T t). moves. unfold enf_remove_step. destruct (s_max s) eqn:Em; [|exact I].
+    destruct sent.
+    + rewrite Hwait by (reflexivity || congruence). exact I.
+    + rewrite Eidle. exact I.
+  - destruct (locked mb s) eqn:Elk; [eauto|]. exists (T t). moves. rewrite Elk.
+    destruct (pick 0 rest) as [[? ?]|]; exact I.
+Qed.
+
+(* --------------------------------------------------- the invariants hold initially *)
+
+Lemma init_thr_nth cap max ops t p :
+  nth_error (s_thr (init_sys cap max [] enf0 ops)) t = Some p -> exists o, p = PStart o /\ nth_error ops t = Some o.
+Proof.
+  cbn [init_sys s_thr]. intros H. rewrite nth_error_map in H.
+  destruct (nth_error ops t); [|discriminate]. inversion H; eauto.
+Qed.
+
+Lemma init_invL cap max ops : invL (init_sys cap max [] enf0 ops).
+Proof. intros mb t H. cbn in H. discriminate. Qed.
+Lemma init_invD cap max ops : invD (init_sys cap max [] enf0 ops).
+Proof. intros t p H Hw. destruct (init_thr_nth _ _ _ _ _ H) as (o & -> & _). discriminate. Qed.
+Lemma init_invN cap max ops : invN (init_sys cap max [] enf0 ops).
+Proof. intros _. reflexivity. Qed.
+
+Theorem mem_deadlock_free cap max ops s :
+  reach (init_sys cap max [] enf0 ops) s -> all_done s = true \/ exists w, can_move s w.
+Proof.
+  intros R. apply deadlock_free_inv.
+  - revert s R. apply reach_ind_inv; [apply init_invL | intros; eapply invL_step; eauto].
+  - revert s R. apply reach_ind_inv; [apply init_invD | intros; eapply invD_step; eauto].
+  - revert s R. apply reach_ind_inv; [apply init_invN | intros; eapply invN_step; eauto].
+Qed.
+
+Lemma can_move_enabled s w : can_move s w -> enabled s w = true.
+Proof. unfold can_move, enabled. destruct (step s w 0); tauto. Qed.
+
+Definition progress (s : msys) : Prop := all_done s = true \/ exists w, enabled s w = true.
+
+Theorem mem_deadlock_free_run cap max ops sched :
+  match run (init_sys cap max [] enf0 ops) sched with
+  | Fin s | BlockedAt _ s | CrashedAt _ s => progress s
+  end.
+Proof.
+  pose proof (run_from_reach (init_sys cap max [] enf0 ops) sched 0 _ (reach_refl _)) as H.
+  unfold run. destruct (run_from 0 _ sched); [| |destruct H as [H _]];
+  (destruct (mem_deadlock_free _ _ _ _ H) as [?|[w ?]]; [left; assumption | right; exists w; now apply can_move_enabled]).
+Qed.
+
+(** Non-vacuity: a schedule that really blocks (second delivery waits for the mailbox lock). *)
+Example blocked_state_exists :
+  exists n s, run (init_sys 0 None [] enf0 [OAdd 1 1 10; OAdd 1 2 10]) [(T 0%nat, 0%nat); (T 0%nat, 0%nat); (T 1%nat, 0%nat); (T 1%nat, 0%nat)] = BlockedAt n s.
+Proof. eexists _, _. vm_compute. reflexivity. Qed.
